@@ -139,7 +139,7 @@ def run(ctx):
     ctx.notes["negative_controls"] = "parser_counter_not_reset, generator_names_not_reset, cache_key_by_name each violate an invariant"
     # ---------------------------------------------------------------- pools
     calls = corpus_calls()
-    npools = 60 if ctx.thorough else 4
+    npools = 24 if ctx.thorough else 4
     pools = [list(p) for p in SPECIAL_POOLS]
     order = sorted(range(len(calls)), key=lambda k: h(ctx.seed, k))
     for p in range(npools):
